@@ -14,7 +14,7 @@ def variant(r, rec, used_fresh, depth=0):
     """a variant of a subtree: children kept / dropped / changed, fresh children added"""
     out = dict(rec)
     if rec["cls"] != "Root" and r.random() < 0.5:
-        cls = r.choice(gen.CLASSES) if r.random() < 0.3 else rec["cls"]
+        cls = r.choice(_CLS[0]) if r.random() < 0.3 else rec["cls"]
         out["cls"] = cls
         out["pay"] = gen.gen_payload(r, cls)
     if r.random() < 0.4:
@@ -37,7 +37,7 @@ def variant(r, rec, used_fresh, depth=0):
             nm = f"new{len(used_fresh)}"
             used_fresh.add(nm)
             sub = gen.gen_tree(r, rootname="x", maxdepth=r.choice([0, 1, 2]), budget=[r.choice([0, 1, 3])], odd=0.05)
-            cls = r.choice(gen.CLASSES)
+            cls = r.choice(_CLS[0])
             newk = {"name": nm, "cls": cls, "pay": gen.gen_payload(r, cls), "md": [], "kids": []}
             newk["kids"] = [k for k in sub["kids"] if k["name"] not in gen.reserved_names(newk)]
             kids.append(newk)
@@ -46,8 +46,21 @@ def variant(r, rec, used_fresh, depth=0):
     return out
 
 
-def gen_pair(r):
-    U = gen.gen_tree(r, rootname="R0", maxdepth=r.choice([2, 3, 4]), odd=0.1, md=0.4)
+_CLS = [gen.CLASSES]
+
+
+def gen_pair(r, classes=None):
+    """(file tree, runtime tree) over a common universe; `classes`: node classes to draw from (default: the four built-in ones)"""
+    old = _CLS[0]
+    _CLS[0] = classes or gen.CLASSES
+    try:
+        return _gen_pair(r)
+    finally:
+        _CLS[0] = old
+
+
+def _gen_pair(r):
+    U = gen.gen_tree(r, rootname="R0", maxdepth=r.choice([2, 3, 4]), odd=0.1, md=0.4, classes=_CLS[0])
     # names that start with (or equal) the root's name exercise the path arithmetic of targeted appends
     if U["kids"] and r.random() < 0.3:
         k = r.choice(U["kids"])
@@ -70,7 +83,7 @@ def gen_pair(r):
             nm = r.choice([k["name"] + "2", k["name"] + "_b", k["name"] + "x", "_tmp_" + k["name"], "_tmp_" + k["name"]])
             res = gen.reserved_names(h) if h["cls"] != "Root" else {"metadatabundle"}
             if nm not in [x["name"] for x in h["kids"]] and nm not in res:
-                cls = r.choice(gen.CLASSES)
+                cls = r.choice(_CLS[0])
                 h["kids"].append({"name": nm, "cls": cls, "pay": gen.gen_payload(r, cls), "md": [], "kids": []})
     fresh = set()
     F = variant(r, U, fresh)
